@@ -10,6 +10,7 @@ import (
 	"testing"
 
 	appsv1 "k8s.io/api/apps/v1"
+	corev1 "k8s.io/api/core/v1"
 	"k8s.io/apimachinery/pkg/api/resource"
 	metav1 "k8s.io/apimachinery/pkg/apis/meta/v1"
 	"k8s.io/apimachinery/pkg/conversion"
@@ -412,6 +413,55 @@ func runC19Ann(rep Rep, c C19AnnCase) {
 	}
 	if v, has := s4.Annotations[helper.DeleteSlotsAnn]; has != hadSlots || v != slotsBefore {
 		rep.Violate("pause/slots-annotation-disturbed", "the pause helpers changed delete-slots from %q to %q", slotsBefore, v)
+	}
+	// the same over a write history through the hijack client: what an Update submits is what a Get returns, also
+	// when the update's way of saying "no slots" / "not paused" is to drop the key
+	{
+		one := int32(1)
+		hb := &appsv1.StatefulSet{ObjectMeta: metav1.ObjectMeta{Name: "x", Namespace: NS},
+			Spec: appsv1.StatefulSetSpec{Replicas: &one, ServiceName: "svc", Selector: &metav1.LabelSelector{MatchLabels: map[string]string{"app": "x"}},
+				Template: corev1.PodTemplateSpec{ObjectMeta: metav1.ObjectMeta{Labels: map[string]string{"app": "x"}},
+					Spec: corev1.PodSpec{Containers: []corev1.Container{{Name: "c", Image: "i"}}}}}}
+		if !c.NilAnn {
+			hb.Annotations = map[string]string{}
+			for k, v := range c.Ann {
+				hb.Annotations[k] = v
+			}
+		}
+		_ = helper.SetDeleteSlots(hb, sets.NewInt32(c.Slots...))
+		helper.SetPausedReconcile(hb, true)
+		hcl := helper.NewHijackClient(kubefake.NewSimpleClientset(), pcfake.NewSimpleClientset()).AppsV1().StatefulSets(NS)
+		ctx := context.TODO()
+		if _, err := hcl.Create(ctx, hb.DeepCopy(), metav1.CreateOptions{}); err != nil {
+			rep.Violate("hijack/create-failed", "Create through the hijack client failed: %v", err)
+		}
+		cur, err := hcl.Get(ctx, "x", metav1.GetOptions{})
+		if err != nil {
+			rep.Violate("hijack/get-failed", "Get failed: %v", err)
+		}
+		upd := cur.DeepCopy()
+		_ = helper.SetDeleteSlots(upd, sets.NewInt32(c.More...))
+		helper.SetPausedReconcile(upd, false)
+		if _, err := hcl.Update(ctx, upd.DeepCopy(), metav1.UpdateOptions{}); err != nil {
+			rep.Violate("hijack/update-failed", "Update failed: %v", err)
+		}
+		back, err := hcl.Get(ctx, "x", metav1.GetOptions{})
+		if err != nil {
+			rep.Violate("hijack/get-failed", "Get failed: %v", err)
+		}
+		wa, ga := map[string]string{}, map[string]string{}
+		for k, v := range upd.Annotations {
+			wa[k] = v
+		}
+		for k, v := range back.Annotations {
+			ga[k] = v
+		}
+		if fmt.Sprint(wa) != fmt.Sprint(ga) {
+			rep.Violate("hijack/update-readback-annotations-differ", "an Update submitted annotations %v, a Get returns %v (first version had slots %v and the pause flag)", wa, ga, c.Slots)
+		}
+		if helper.GetPausedReconcile(back) || !helper.GetDeleteSlots(back).Equal(sets.NewInt32(c.More...)) {
+			rep.Violate("hijack/update-readback-annotations-differ", "after an Update to slots %v / not paused the set reads slots %v paused=%v", c.More, sortedI32(helper.GetDeleteSlots(back)), helper.GetPausedReconcile(back))
+		}
 	}
 	rep.FP(worldFPAny(c))
 	if len(c.Slots) > 0 && (c.NilAnn || len(c.Ann) > 0) {
